@@ -13,11 +13,117 @@ from the ordering / argument list (RuntimeError) and non-Boolean or ill-formed t
 When O has two or more variables a seventh slot p6 is built FIRST and stays alive: one of the four texts under ANOTHER
 argument order (so every case has two orderings alive together); well-formed expressions that are not lambdas go through the
 one-argument form OBDD(text) (SyntaxError); every comparison operator and chains of them are among the non-Boolean fragments;
-keyword chains have up to 6 operands."""
+keyword chains have up to 6 operands.  (w) wide printed forms (4-variable functions with big diagrams), (g) the connectives
+of other languages (&& || ! AND OR NOT ...) as ill-formed text, (f) all of it again under other variable names (NAME_TABLES,
+own worker c18_worker.py): identifiers with underscores, digits, capitals, soft keywords and long names."""
 from common import *
 import bddlib as B
+import ast, contextlib, functools, subprocess
 LEVEL = 'proof'
 PSIZE = 6
+
+# ----------------------------------------------------------------------------------------------------------------------
+# (f) other variable names.  bddlib.NAMES (a, ab, b, bb, e_x) is shared; the tables below are C18's own renaming: every
+# legal kind of Python identifier has to be a legal variable of an ordering / lambda argument list (underscore inside,
+# leading underscore, dunder, '_' alone, digits, capitals, soft keywords, names that only BEGIN like a keyword, names that
+# extend one another) and LONG names make the printed forms str(o.root) / str(o) long (hundreds of characters: whatever the
+# printer does to long lines - wrapping, truncation, an ellipsis - shows in OBDD(str(o))).  ASCII only: ast NFKC-normalises
+# identifiers, the library does not (OBDD('µ', ['µ']) raises RuntimeError on the unchanged tree) - outside this property.
+# A history that carries h['names'] is generated, executed (c18_worker.py), compared, shrunk, reported and replayed with
+# bddlib.NAMES swapped for that table.
+# ----------------------------------------------------------------------------------------------------------------------
+NAME_TABLES = [
+    ['x_1', '_p', 'Q', 'v2', 'e_x'],                                          # underscore / leading underscore / capital / digit
+    ['req_in', 'ack_out', '__', 'X9_', 'e_x'],                                # the demo's names, a dunder, trailing underscore
+    ['match', 'case', '_', 'type', 'e_x'],                                    # soft keywords and the lone underscore
+    ['nota', 'or_', 'And', 'lambda_', 'e_x'],                                 # names that begin like the keywords / differ by case
+    ['a1', 'a', 'a_', '_a', 'e_x'],                                           # names extending one another
+    ['request_line_in', 'acknowledge_out', 'grant_token_0', 'bus_is_busy', 'e_x'],           # long: printed forms of 100-400 chars
+    ['the_first_input_of_the_arbiter_cell', 'x', 'second_input_of_the_arbiter_cell_n0', 'Y_' * 9, 'e_x']]   # one name > 30 chars
+LONG_TABLES = (5, 6)
+
+
+def run_library_named(names, histories, want_str=False, timeout=900):
+    """bddlib.run_library through c18_worker.py (the same worker under the name table `names`)"""
+    repo = os.environ.get('PMC_REPO', '/repo')
+    env = dict(os.environ)
+    env['PYTHONPATH'] = repo
+    env.setdefault('PYTHONHASHSEED', '0')
+    env['PYTHONDONTWRITEBYTECODE'] = '1'
+    env['C18_NAMES'] = json.dumps(list(names))
+    job = {'want_str': want_str,
+           'histories': [{'psize': h['psize'], 'ops': [B.worker_op(o) for o in h['ops']]} for h in histories]}
+    p = subprocess.run([sys.executable, '-W', 'ignore', os.path.join(B.HERE, 'c18_worker.py')],
+                       input=json.dumps(job), capture_output=True, text=True, timeout=timeout, env=env)
+    if p.returncode != 0:
+        raise RuntimeError('library worker (names %s) crashed rc=%s: %s' % (names, p.returncode, p.stderr[-1500:]))
+    return json.loads(p.stdout)
+
+
+@contextlib.contextmanager
+def using_names(names):
+    """inside the block bddlib renders, tokenises, runs, shrinks and replays with the given name table"""
+    if not names:
+        yield
+        return
+    old = (B.NAMES, B.run_library)
+    B.NAMES = [str(x) for x in names]
+    B.run_library = functools.partial(run_library_named, list(B.NAMES))
+    try:
+        yield
+    finally:
+        B.NAMES, B.run_library = old
+
+
+# ----------------------------------------------------------------------------------------------------------------------
+# (g) the connectives of OTHER languages.  & | ~ and and/or/not are the only spellings; a text that writes one or all of its
+# connectives the way C, SQL/Pascal, mathematics, ... write them is not Python at all (checked with ast.parse here) and must
+# raise SyntaxError in both notations - a front end that "helpfully" normalises such spellings accepts them instead.
+# ----------------------------------------------------------------------------------------------------------------------
+FOREIGN = {'C': {'&': '&&', '|': '||', '~': '!'},
+           'C-not-only': {'~': '!'},
+           'upper-case keywords': {'&': 'AND', '|': 'OR', '~': 'NOT '},
+           'mathematics': {'&': '∧', '|': '∨', '~': '¬'},
+           'ascii art': {'&': '/\\', '|': '\\/', '~': '-.'},
+           'arrows and words': {'&': 'et', '|': 'vel', '~': 'non '},
+           'doubled': {'&': '& &', '|': '| |', '~': '~!'},
+           'postfix not': {'~': "'"}}
+
+
+def foreign_text(rng, e, style, mode):
+    """the operator-style text of e with the connectives respelt: mode 'all' | 'kind' (every occurrence of one connective)
+    | 'one' (a single occurrence); None when nothing was respelt or Python still reads the result"""
+    text = B.render(B.to_op(e))
+    table = FOREIGN[style]
+    pos = [i for i, c in enumerate(text) if c in table]
+    if not pos:
+        return None
+    if mode == 'one':
+        pos = [rng.choice(pos)]
+    elif mode == 'kind':
+        k = rng.choice(sorted(set(text[i] for i in pos)))
+        pos = [i for i in pos if text[i] == k]
+    out = []
+    for i, c in enumerate(text):
+        if i in pos and style == 'postfix not':
+            continue
+        out.append(table[c] if i in pos else c)
+    text2 = ''.join(out)
+    if style == 'postfix not':
+        text2 = text2 + "'"
+    try:
+        ast.parse(text2, mode='eval')
+    except SyntaxError:
+        return text2
+    except Exception:
+        return None
+    return None
+
+
+FOREIGN_TEXTS = ['!a', 'a && b', 'a || b', 'a || !b', '!(a && b) || a', 'a & !b', '!a | b', '~a && b', 'a and !b', 'not a || b',
+                 '!!a', '! a', 'a &&b', 'a||b', '(a && b) | c', 'a & (b || c)', '!0', '1 && 1', 'a !| b', 'a AND b', 'NOT a',
+                 'a OR NOT b', 'a ∧ b', '¬a', 'a ∨ ¬b', 'a -> b', 'a <-> b', 'a <=> b', 'a xor b', 'a nand b',
+                 "a'", 'a /\\ b', 'a \\/ b', 'a . b', 'a &&& b', 'a ||| b', 'a &| b', '(!a)', 'a & b || c & a', '!a && !b']
 
 
 def case_history(O, e, mixed=None, full=False, shadow=None):
@@ -82,6 +188,12 @@ def statement_history(O, text):
 
 
 def batch(histories):
+    """one batch = histories under ONE name table (h['names'], None = bddlib.NAMES)"""
+    with using_names(histories[0].get('names') if histories else None):
+        return batch_named(histories)
+
+
+def batch_named(histories):
     res = B.run_batch(histories, want_str=True)
     cmds, idx = [], []
     for n, h in enumerate(histories):
@@ -106,7 +218,8 @@ def batch(histories):
                 viol = [('printed root differs from the model printer', histories[n]['first'],
                          ['str(root) = %r, tokens %s; model tokens %s' % (lib_str, lt, mt)])]
             # str(o) is 'lambda <ordering>: <str(root)>' - recorded as internal agreement only
-            extra = (lib_str, strs[histories[n]['first']][0][1] == B.lambda_text(histories[n]['O'], lib_str))
+            extra = (lib_str, strs[histories[n]['first']][0][1] == B.lambda_text(histories[n]['O'], lib_str),
+                     len(strs[histories[n]['first']][0][1]))
         out.append((viol, info, extra))
     return out
 
@@ -215,6 +328,73 @@ def run(R):
     for t in B.LEXICAL_VARIANTS + B.NARY_TEXTS:
         hs.append(notlambda_history([0, 1, 2, 3], B.struct_of_text(t), text=t))
     n_notlambda = len(hs) - n_before
+    scale = 8 if R.thorough else 1
+
+    def wide_expr(nv, min_nodes):
+        """a random expression over ALL of nv variables whose reduced diagram (as a tree) has >= min_nodes inner nodes"""
+        vs = list(range(nv))
+        while True:
+            e = B.rand_expr(rng, 4, vs, p_kw=0.35, p_const=0.03)
+            t = B.tt_eval(e)
+            if len(B.tt_support(t)) == nv and B.spec_nodes(B.spec_of_tt(t, vs)) >= min_nodes:
+                return e
+    # (w) wide printed forms under the usual names: 4-variable functions that depend on all four variables, big diagrams
+    n_before = len(hs)
+    for _ in range(250 * scale):
+        e = wide_expr(4, 6)
+        O = rng.choice(perms4)
+        hs.append(case_history(O, e, mixed=e, full=rng.random() < 0.2, shadow=shadow_for(O)))
+    n_wide = len(hs) - n_before
+    # (g) connectives of other languages: the fixed corpus and random expressions respelt (all / one kind / one occurrence)
+    n_before = len(hs)
+    for t in FOREIGN_TEXTS:
+        t = B.rn(t)
+        for O in ([0, 1, 2], [1, 0, 2, 3]):
+            hs.append(error_history(O, ('bad', t), text=t))
+    foreign_styles = {}
+    styles = sorted(FOREIGN)
+    n = 0
+    while n < 360 * scale:
+        e = B.rand_expr(rng, rng.randint(1, 3), [0, 1, 2], p_kw=0.0, p_const=0.05)
+        style, mode = styles[n % len(styles)], ('all', 'kind', 'one')[(n // len(styles)) % 3]
+        t = foreign_text(rng, e, style, mode)
+        if t is None:
+            if not any(c in B.render(B.to_op(e)) for c in FOREIGN[style]):
+                continue
+            n += 1
+            continue
+        n += 1
+        foreign_styles[style + '/' + mode] = foreign_styles.get(style + '/' + mode, 0) + 1
+        hs.append(error_history(rng.choice(perms3), ('bad', t), text=t))
+    n_foreign = len(hs) - n_before
+    # (f) the same streams under OTHER variable names (own renaming, see NAME_TABLES): round trips of every size of argument
+    #     list, wide ones under the long names, a missing variable, an expression through the one-argument form
+    named = []
+    for ti, names in enumerate(NAME_TABLES):
+        mine = []
+        with using_names(names):
+            for k in range((200 if ti in LONG_TABLES else 110) * scale):
+                if ti in LONG_TABLES and k % 4:
+                    nv = 4 if k % 4 == 1 else 3
+                    e = wide_expr(nv, nv + 1)
+                else:
+                    nv = (4, 3, 4, 2, 4, 3, 1, 4)[k % 8]
+                    e = B.rand_expr(rng, min(4, nv + 1), list(range(nv)), p_kw=0.35, p_const=0.05)
+                O = list(rng.choice(perms4))[:] if nv == 4 else [v for v in rng.choice(perms4) if v < nv]
+                if k % 8 == 5:
+                    O = rng.choice(perms4)                  # an ordering with a variable the expression cannot use
+                h = case_history(O, e, mixed=e, full=rng.random() < 0.2, shadow=shadow_for(O) if len(O) >= 2 else None)
+                mine.append(h)
+                if k % 5 == 0 and B.evars(e):
+                    gone = rng.choice(sorted(B.evars(e)))
+                    mine.append(error_history([v for v in O if v != gone], e))
+                if k % 9 == 0:
+                    src = h['ops'][h['first'] + rng.choice([0, 2])]
+                    mine.append(notlambda_history(O, src[3], text=src[4]))
+        for h in mine:
+            h['names'] = list(names)
+        named.append(mine)
+    n_named = sum(len(m) for m in named)
     R.rule = ('(0) corpus first: %d statement-shaped texts (a = b, a; b, return a, x = lambda a: a, lambda a: a; 1, a += b, del a, pass, import a, '
               'multi-line text ...) as expression text, as the whole lambda text and as a lambda body -> SyntaxError, pool unchanged; %d lexical '
               'variants (leading blanks, comments, line continuation, redundant brackets, 0b1/0x0) read with Python\'s own parser -> same OBDD in '
@@ -235,13 +415,30 @@ def run(R):
               'that are NOT lambdas (all of depth <= 1, a sample of the texts of (a)/(b) in both spellings, the lexical variants and long chains) '
               'through the one-argument form OBDD(text) -> SyntaxError, pool unchanged. A case = (text, argument order); non-trivial = the diagram '
               'of the expression has >= 2 internal nodes (error cases: the rejected text has at least one operator)'
-              % (len(d2), 'all 6' if R.thorough else '1-2 of the 6 (rotating)', len(B.BAD_FRAGMENTS), len(B.BAD_TEXTS)))
+              % (len(d2), 'all 6' if R.thorough else '1-2 of the 6 (rotating)', len(B.BAD_FRAGMENTS), len(B.BAD_TEXTS)) +
+              '; (w) %d WIDE round trips under the usual names: random depth-4 expressions that depend on all four variables and whose diagram '
+              'has >= 6 inner nodes (printed lambdas of 60-130 characters), all seven slots as in (b); (g) connectives of OTHER languages -> '
+              'SyntaxError in both notations: a corpus of %d texts (!a, a && b, a || !b, a AND b, NOT a, the mathematical signs, ->, <=>, xor, '
+              "a', /\\ ...) under two argument orders and random expressions of depth 1-3 respelt in %d styles (%s), every connective / every "
+              'occurrence of one connective / a single occurrence (each text checked to be rejected by Python\'s own parser); (f) OTHER VARIABLE '
+              'NAMES - %d name tables of the check\'s own (%s): under each of them random round trips (all seven slots, printed root against the '
+              'model printer) over 1-4 variables incl. argument lists with a variable the expression does not use, a missing variable '
+              '(RuntimeError) and an expression through the one-argument form (SyntaxError); under the two LONG tables three quarters of the '
+              'expressions depend on all their 3-4 variables and have big diagrams, so str(o) has 100-600 characters'
+              % (n_wide, len(FOREIGN_TEXTS), len(FOREIGN), ', '.join(sorted(FOREIGN)), len(NAME_TABLES),
+                 '; '.join(' '.join(t[:4]) for t in NAME_TABLES)))
     batches = B.chunks(hs, 60)
+    for mine in named:
+        batches.extend(B.chunks(mine, 40))       # one name table per batch (see batch); smaller: these histories are the big ones
+    all_hs = hs + [h for mine in named for h in mine]
     results = B.parallel(batch, batches)
     kinds = {'statement_corpus': n_corpus, 'lexical_variants_and_long_keyword_chains': n_variants, 'exhaustive_depth<=2': n_exh,
-             'sampled_depth3/4': n_rt - n_exh - n_variants, 'error_cases': len(hs) - n_rt - n_corpus - n_notlambda,
+             'sampled_depth3/4': n_rt - n_exh - n_variants,
+             'error_cases': len(hs) - n_rt - n_corpus - n_notlambda - n_wide - n_foreign,
              'expression_through_the_one_argument_form': n_notlambda,
-             'roundtrip_cases_with_a_second_ordering_alive': sum(1 for h in hs if h.get('first'))}
+             'wide_roundtrips_usual_names': n_wide, 'foreign_connectives': n_foreign,
+             'under_other_variable_names(all kinds)': n_named,
+             'roundtrip_cases_with_a_second_ordering_alive': sum(1 for h in all_hs if h.get('first'))}
     chain = {}
 
     def widest(e):
@@ -253,17 +450,18 @@ def run(R):
         if t in ('and', 'or'):
             return max(2, widest(e[1]), widest(e[2]))
         return max([len(e[1])] + [widest(x) for x in e[1]])
-    for h in hs:
+    for h in all_hs:
         if h['kind'] in ('roundtrip', 'variant'):
             w = widest(h['ops'][h.get('first', 0) + (1 if h['kind'] == 'roundtrip' else 0)][3])
             chain[w] = chain.get(w, 0) + 1
-    errors, sizes, depths = {}, {}, {}
+    errors, sizes, depths, plen, by_table = {}, {}, {}, {}, {}
     fmt_ok = fmt_all = 0
     for bt, res in zip(batches, results):
         for h, (viol, info, extra) in zip(bt, res):
             R.evaluations += 1
             for v in viol:
-                B.report_violation(R, 'C18', h, v, extra={'kind': h['kind']})
+                with using_names(h.get('names')):
+                    B.report_violation(R, 'C18', h, v, extra={'kind': h['kind'], 'names': h.get('names')})
             if viol:
                 continue
             if h['kind'] == 'notlambda':
@@ -280,6 +478,10 @@ def run(R):
                 depths[d] = depths.get(d, 0) + 1
                 fmt_all += 1
                 fmt_ok += bool(extra[1])
+                bucket = '<40' if extra[2] < 40 else '40-79' if extra[2] < 80 else '80-159' if extra[2] < 160 else '160-319' if extra[2] < 320 else '>=320'
+                plen[bucket] = plen.get(bucket, 0) + 1
+                tab = NAME_TABLES.index(h['names']) if h.get('names') else -1
+                by_table[tab] = by_table.get(tab, 0) + 1
                 if internal >= 2:
                     R.nontriv((h['ops'][f0 + 1][4], tuple(h['O'])))
                     if internal >= 4:
@@ -292,10 +494,13 @@ def run(R):
                 errors[st] = errors.get(st, 0) + 1
                 if info[2]['status'] != st:
                     raise B.MachineryError('oracle: notations differ')
-                if any(c in h['ops'][1][4] for c in '&|~+-<^(') or ' ' in h['ops'][1][4].strip():
+                if any(c in h['ops'][1][4] for c in '&|~+-<^(!') or ' ' in h['ops'][1][4].strip():
                     R.nontriv(('err', h['ops'][1][4], tuple(h['O'])))
     R.cov['distribution'] = {'cases': kinds, 'expected_errors': errors, 'widest_connective(operands)': {str(k): v for k, v in sorted(chain.items())}, 'expression_depth': {str(k): v for k, v in sorted(depths.items())},
-                             'diagram_internal_nodes': {str(k): v for k, v in sorted(sizes.items())}}
+                             'diagram_internal_nodes': {str(k): v for k, v in sorted(sizes.items())},
+                             'len(str(o))_of_round_trips': plen, 'foreign_connective_texts(style/mode)': foreign_styles,
+                             'round_trips_by_name_table': {('bddlib.NAMES' if k < 0 else ' '.join(NAME_TABLES[k][:4])): v
+                                                           for k, v in sorted(by_table.items())}}
     R.cov['internal_agreement'] = {'str(obdd) == "lambda <ordering>: " + str(root)': '%d/%d' % (fmt_ok, fmt_all)}
     R.cov['informational'] = ('not part of the violation logic: constants other than 0/1 (2, None, "x", ...) raise SyntaxError through the deprecated '
                               'ast attribute node.n (DeprecationWarning on 3.12, gone in 3.14; the worker runs with -W ignore); floats 1.0/0.0 are '
@@ -304,6 +509,14 @@ def run(R):
 
 
 def replay(R, data):
+    names = data['data'].get('names')
+    if names:
+        print('variable names of this case: %s (bddlib.NAMES swapped, worker c18_worker.py)' % (names,))
+    with using_names(names):
+        replay_named(R, data)
+
+
+def replay_named(R, data):
     B.replay_history(R, data)
     d = data['data']
     ops = B.norm_ops(d['ops'])
